@@ -4,6 +4,9 @@ import os, shutil, subprocess
 import femmio
 
 SOLVER = {"e": "esolver", "h": "hsolver", "m": "fsolver"}
+# runs whose solver exited 0 but wrote a solution with non-finite values: comparisons with a tolerance are blind to NaN, so every
+# check reports these at the end (tools/vlib.py Check.finish) unless it classified the run itself (run.nonfinite_handled = True)
+NONFINITE = []
 
 
 class Run:
@@ -55,6 +58,22 @@ class Run:
             self.solve_rc, self.solve_out = r.returncode, r.stdout
         except subprocess.TimeoutExpired:
             self.solve_rc, self.solve_out = -999, "timeout"
+        self.nonfinite = None
+        self.nonfinite_handled = False
+        if self.solve_rc == 0 and os.path.exists(self.solution_path()):
+            try:
+                txt = open(self.solution_path(), errors="replace").read()
+                k = txt.find("[Solution]")
+                body = txt[k:] if k >= 0 else txt
+                import re
+                m = re.search(r"(?i)(?<![\w.])-?(nan|inf(inity)?)(?![\w.])", body)
+                if m:
+                    self.nonfinite = body[max(0, m.start() - 60):m.end() + 20].replace("\n", " | ")
+                    self.nonfinite_files = {os.path.basename(self.file): open(self.file, errors="replace").read(),
+                                            os.path.basename(self.solution_path()) + " (head)": txt[:max(k, 0) + 2000]}
+                    NONFINITE.append(self)
+            except OSError:
+                pass
         return self.solve_rc
 
     def solution_path(self):
